@@ -710,6 +710,11 @@ pub fn parse_with(dialect: &Dialect, sql: &str) -> Result<String, String> {
 }
 
 const PROBES: &[&str] = &[
+    "CREATE VIEW v AS SELECT 1 WITH NO SCHEMA BINDING\n",
+    "CREATE CAST (int AS bool) WITH FUNCTION fname\n",
+    "drop view a restrict\n",
+    "CREATE DATABASE d COMMENT 'x'\n",
+    "SELECT sum(a) OVER (ORDER BY b RANGE BETWEEN INTERVAL '1' DAY PRECEDING AND CURRENT ROW) FROM t\n",
     "CREATE TABLE t (a int)\n",
     "CREATE TEMPORARY TABLE t (a int)\n",
     "CREATE OR REPLACE TABLE t (a int)\n",
